@@ -66,7 +66,7 @@ let () =
         let applied = n_of_string (field hdr "applied" "0") in
         let tasks = List.map (fun o ->
           match split_ws o with
-          | ["T"; ents] ->
+          | ["RACE"; ents] | ["T"; ents] ->
             TEntries (List.map (fun x -> match String.split_on_char ':' x with
               | [i; k; p] -> { e_index = n_of_string i; e_kind = (if k = "u" then KUpdate else KSkip); e_payload = n_of_string p }
               | _ -> failwith "bad entry") (String.split_on_char ',' ents))
